@@ -328,6 +328,38 @@ func runC13(c *Ctx) {
 			"AddPrecomputedValue runs the normalisers over a text that is normalised already: with a normaliser that is not idempotent the registered text differs from the one its search set was computed from and from the normalised unknown text, so a verbatim copy is not found exactly")
 	}
 	checkConfidenceExact(c, p)
+	// R13.17: a hit of the regular expression is a verbatim copy only if its bytes are the value's bytes. Go's regexp decodes
+	// every invalid UTF-8 byte of the searched text as U+FFFD, so a value that contains U+FFFD "occurs" wherever the text has
+	// an invalid byte in that place: the function that reports the hits compares text[a:b] with the value (or locates the
+	// copies by byte comparison in the first place).
+	for _, fn := range pkgFuncs(p, scPkg) {
+		var find ssa.CallInstruction
+		for _, call := range core.CallsIn(fn) {
+			if n := core.StaticCalleeName(call.Common()); n == "(*regexp.Regexp).FindAllStringIndex" || n == "(*regexp.Regexp).FindStringIndex" {
+				find = call
+			}
+		}
+		if find == nil {
+			continue
+		}
+		verified := false
+		for _, b := range fn.Blocks {
+			for _, in := range b.Instrs {
+				bo, ok := in.(*ssa.BinOp)
+				if !ok || (bo.Op != token.EQL && bo.Op != token.NEQ) || !isString(bo.X.Type()) {
+					continue
+				}
+				for _, o := range []ssa.Value{bo.X, bo.Y} {
+					if sl, isSl := o.(*ssa.Slice); isSl && isString(sl.X.Type()) {
+						verified = true
+					}
+				}
+			}
+		}
+		// keyed without the function's name, so that the finding keeps its identity when the shortcut is moved into a helper
+		c.R.Check(verified, "R13.17", "stringclassifier: a hit of the regular expression is reported only if its bytes equal the known value", p.Pos(find.Pos()),
+			"the bytes the expression delimits are compared with the value", "the ranges found by the regular expression are reported unchecked: regexp matches U+FFFD in the value against any invalid byte of the text, so a range that is no copy gets confidence 1.0 and displaces the real verbatim copy")
+	}
 }
 
 // checkConfidenceExact: R13.14, R13.15, R13.16.
